@@ -2,6 +2,7 @@ import DM.Drv.Util
 import DM.Drv.C06
 import DM.Spec.Stream
 import DM.Model.Symbol
+import DM.Spec.Opt
 /-
 Oracles evaluated on the implementation's encoder output (properties C02, C13, C16, C18,
 C19, C11). One request describes a whole encoding; `flags` selects the checks.
@@ -145,6 +146,27 @@ def checkK (c : EncCase) (r : EncOk) (d : Decoded) : Option String :=
   else if r.steps > 216 * (n + 1) + 5 then some s!"steps {r.steps} for n={n}"
   else none
 
+/-- C10: no listed symbol of smaller capacity admits a legal encoding found by the search;
+the witness stream is part of the message -/
+def checkO (c : EncCase) (sizeCap : Option Nat) : Option String :=
+  if c.macros ∨ c.fnc1 ∨ c.eci.isSome then none else
+  let list := symbolList (maskList c.mask)
+  let caps := list.map dataCw
+  match DM.Spec.Opt.search c.input c.modes caps with
+  | none => none
+  | some a =>
+    let wcap := caps.getD a.capIndex 0
+    let cw := DM.Spec.Build.build a.script
+    -- class of the witness: a C40/Text run ending with the symbol, followed by one ASCII codeword
+    -- for a last character that needs more than one C40/Text value (known finding K-A)
+    let cls := match a.script.items.reverse with
+      | .ascii _ [b] :: .c40 text _ false :: _ =>
+        if (DM.Spec.Build.c40Vals text b).length ≥ 2 then "[shifted-last-char-as-ascii-tail]" else ""
+      | _ => ""
+    match sizeCap with
+    | some cap => if cap > wcap then some s!"{cls}needs-{cap}-but-{wcap}-suffices:witness:{hex cw}" else none
+    | none => some s!"{cls}refused-but-{wcap}-suffices:witness:{hex cw}"
+
 def encOracle (flags : String) (c : EncCase) (resp : String) : String :=
   match parseResp resp with
   | .error e =>
@@ -155,6 +177,10 @@ def encOracle (flags : String) (c : EncCase) (resp : String) : String :=
       if empty ∧ resp ≠ "err:SymbolListEmpty" then "fail:empty-list-not-reported"
       else if !empty ∧ resp ≠ "err:TooMuchOrIllegalData" then s!"fail:wrong-error {resp}"
       else "ok"
+    else if flags.contains 'o' ∧ c.mask ≠ 0 then
+      match checkO c none with
+      | some m => s!"fail:o:{m}"
+      | none => "ok"
     else "ok"
   | .ok (some r) =>
     match Stream.decode (r.cw.take r.ndata) with
@@ -162,7 +188,8 @@ def encOracle (flags : String) (c : EncCase) (resp : String) : String :=
     | .ok d =>
       let checks : List (Char × Option String) :=
         [('r', checkR c r d), ('m', checkM c d), ('a', checkA c r d), ('p', checkP c r d), ('k', checkK c r d),
-         ('t', if c.mask = 0 then some "encoded-with-empty-list" else none)]
+         ('t', if c.mask = 0 then some "encoded-with-empty-list" else none),
+         ('o', if flags.contains 'o' then checkO c (some (dataCw r.size)) else none)]
       match checks.find? (fun (f, res) => flags.contains f && res.isSome) with
       | some (f, some msg) => s!"fail:{f}:{msg}"
       | _ => "ok"
